@@ -552,11 +552,12 @@ pub const F9_STMTS: [&str; 40] = [
     "r = arr[2];", "arr[X]++;", "arr[X] += a;", "s = 0x1234;", "s++;", "s--;", "s += a;", "s += t;", "s <<= 1;", "s >>= 1;", "r = s >> 8;", "r = s;", "if (s == t) r = 1;",
 ];
 
-pub const F9_STMTS2: [&str; 34] = [
+pub const F9_STMTS2: [&str; 36] = [
     "p++;", "p--;", "++p;", "--p;", "p = arr;", "p += 2;",
     "sarr[X] = s;", "s = sarr[X];", "sarr[Y] = s;", "s = sarr[Y];", "sarr[1] = t;", "sarr[X]++;", "s = sarr[Y] + 1;", "sarr[Y] += a;",
     "t = s;", "s = t + 1;", "s = a;", "s -= t;", "s &= 0xff;", "s |= t;", "if (s < t) r = 1; else r = 2;", "if (s) r = 1;", "r = g(a);", "h(a, b);", "load(a);", "store(a);", "a = arr[X] + b;", "arr[X] = arr[Y];",
     "sarr[Y] <<= 1;", "sarr[X] >>= 1;", "sarr[X] <<= 1;", "X = a; a = 3; X = a;", "b = a; a = Y; r = a;", "Y = s; s = 3; Y = s;",
+    "p = arr; r = p[Y];", "p = arr; p[Y] = a;",
 ];
 
 /// (name, extra option, declaration text)
@@ -682,6 +683,15 @@ pub fn f_labels() -> Vec<SemCase> {
         v.push(case_from_text("FL.biginline", &src, &small, vec!["labels"], 20));
         let src = format!("{}inline void k() {{ while (a) {{ {} a--; }} }}\nvoid main()\n{{\nk(); if (b) {{ {} }} k();\n}}\n", decl, body, body);
         v.push(case_from_text("FL.biginline", &src, &small, vec!["labels"], 20));
+    }
+    // several declarators in one declaration, each with its own memory class / size
+    for src in [
+        "char * const P = 0x280, * const Q = 0x3a;\nunsigned char r;\nvoid main()\n{\n*Q = 1; r = *Q; *P = r;\n}\n",
+        "char * const Q = 0x3a, * const P = 0x280;\nunsigned char r;\nvoid main()\n{\n*Q = 1; r = *Q; *P = r;\n}\n",
+        "const char k[2] = {3, 4}, m[3] = {5, 6, 7};\nunsigned char r, w[2];\nvoid main()\n{\nw[X] = k[X]; r = m[Y];\n}\n",
+        "unsigned char a, arr[4], b;\nshort s, sarr[2], t;\nvoid main()\n{\narr[X] = a; b = arr[Y]; sarr[X] = s; t = sarr[Y];\n}\n",
+    ] {
+        v.push(case_from_text("FL.decl", src, &small, vec!["decl"], 20));
     }
     v
 }
